@@ -244,6 +244,9 @@ def run(ctx):
     # behind local ⊆ remote and then adopts the REMOTE side
     from . import c05
     shared(c05.r1_nothing_dropped, "C05-R1", "C09-R7")
+    # a refused patch is undone on the log it was rewound on (and every per-kind arm
+    # works on its own log)
+    c04.r7_log_kind_arms(ctx, rule_id="C09-R8")
     if ctx.tier == "thorough" and ctx.config == "workspace":
         from .. import witness
         witness.run(ctx, 'C09-W', 'mutating server helpers need the write guard (type level)', {'PatchNeedsWriteGuard': 'event_patch(req, &mut *read_guard)', 'SyncNeedsWriteGuard': 'sync_account(packet, &mut *read_guard)'})
